@@ -27,6 +27,7 @@ func main() {
 	tags := flag.String("tags", "", "extra build tags for the load")
 	goarch := flag.String("goarch", "", "GOARCH for the load")
 	noSelf := flag.Bool("no-selfcheck", false, "thorough tier: skip variant self-validation")
+	dumpFields := flag.Bool("dump-fieldtable", false, "print internal/rules/fieldtable.go for the analysed tree and exit")
 	noInline := flag.Bool("no-inline", false, "disable virtual inlining of unexported same-package helpers (debugging)")
 	flag.Parse()
 	if e := os.Getenv("VERIF_TIER"); e != "" && !isFlagSet("tier") {
@@ -55,6 +56,15 @@ func main() {
 		}
 	}
 
+	if *dumpFields {
+		w, err := core.Load(opts)
+		if err != nil {
+			fmt.Println(err)
+			os.Exit(2)
+		}
+		fmt.Print(rules.FieldTableSource(w))
+		return
+	}
 	if *dump != "" {
 		w, err := core.Load(opts)
 		if err != nil {
